@@ -23,10 +23,11 @@ VARIABLES l,       \* position in Rec
           seq,     \* last sequence number of the run
           pfs,     \* directory digest(s) seen at the previous event
           viol, nviol, devs, ndev,
-          cnt      \* anti-vacuity counters
+          cnt,     \* anti-vacuity counters
+          jv       \* the judgement of the last event (a variable so that TLC evaluates Judge once per event)
 View == l
 
-DevIds  == {"FX03a", "FX03b", "FX03c", "FX03d", "FX03e", "FX03g"}
+DevIds  == {"FX03a", "FX03b", "FX03c", "FX03d", "FX03e", "FX03f", "FX03g"}
 CntIds  == {"touch", "cutread", "exact", "denied", "hquery", "stale", "sexact", "rtrait"}
 MaxViol == 2000
 MaxDevs == 60
@@ -34,8 +35,12 @@ MaxDevs == 60
 ResMatch(cls, r, rc) == cls = r \/ (cls = "err" /\ rc = "err")
 Names(c) == IF c.comp \in {"dyn", "static"} THEN {c.pl[i][1] : i \in 1..Len(c.pl)} ELSE SeqToSet(c.keys)
 
-\* first index of q satisfying P, or 0
-FirstIdx(q, P(_)) == IF \E i \in 1..Len(q) : P(q[i]) THEN CHOOSE i \in 1..Len(q) : P(q[i]) /\ \A j \in 1..(i - 1) : ~P(q[j]) ELSE 0
+\* first index of q satisfying P, or 0; every P(q[i]) is evaluated at most once (at most 8 candidates exist)
+FirstIdx(q, P(_)) ==
+  LET n == Len(q) IN
+  IF n >= 1 /\ P(q[1]) THEN 1 ELSE IF n >= 2 /\ P(q[2]) THEN 2 ELSE IF n >= 3 /\ P(q[3]) THEN 3 ELSE IF n >= 4 /\ P(q[4]) THEN 4
+  ELSE IF n >= 5 /\ P(q[5]) THEN 5 ELSE IF n >= 6 /\ P(q[6]) THEN 6 ELSE IF n >= 7 /\ P(q[7]) THEN 7 ELSE IF n >= 8 /\ P(q[8]) THEN 8
+  ELSE IF n > 8 THEN Assert(FALSE, "more than 8 candidates") ELSE 0
 
 (* ------------------------------- dyn ---------------------------------- *)
 DClass(e) ==
@@ -83,7 +88,7 @@ JudgeDyn(e) ==
       cs    == DCands(w, e)
       cls   == DClass(e)
       fits(c) == /\ ResMatch(c.res, cls, e.rc) /\ c.dev \subseteq KnownDeviations
-                 /\ DProjOK(c.st, names, e.obs) /\ DSpansOK(c.st, e.obs) /\ DFrozenOK(w, e, pfs)
+                 /\ DProjOK(c.st, names, e.obs) /\ DSpansOK(c.st, e.obs) /\ ("FX03f" \in c.dev \/ DFrozenOK(w, e, pfs))
       i     == FirstIdx(cs, fits)
   IN IF i > 0
      THEN [ok |-> TRUE, st |-> cs[i].st, dev |-> cs[i].dev,
@@ -155,8 +160,9 @@ StartOf(e) ==
 FsOf(c, o) == IF c.comp = "hl" THEN o.outd ELSE o.fs
 
 NoCfg == [comp |-> "none"]
+NoJ == [ok |-> TRUE, st |-> <<>>, dev |-> {}, tags |-> {}]
 TInit == /\ l = 1 /\ w = <<>> /\ cfg = NoCfg /\ seq = 0 /\ pfs = ""
-         /\ viol = <<>> /\ nviol = 0 /\ devs = <<>> /\ ndev = [f \in DevIds |-> 0] /\ cnt = [x \in CntIds |-> 0]
+         /\ viol = <<>> /\ nviol = 0 /\ devs = <<>> /\ ndev = [f \in DevIds |-> 0] /\ cnt = [x \in CntIds |-> 0] /\ jv = NoJ
 
 Bad == /\ viol' = (IF Len(viol) < MaxViol THEN Append(viol, l) ELSE viol) /\ nviol' = nviol + 1
 
@@ -168,24 +174,26 @@ Step ==
         /\ pfs' = (IF e.comp = "dyn" THEN e.fs ELSE IF e.comp = "hl" THEN e.outd ELSE IF e.comp = "static" THEN "absent" ELSE "")
         \* the container must have opened
         /\ IF e.comp \in {"dyn", "res", "hl"} /\ e.res # "ok" THEN Bad ELSE UNCHANGED <<viol, nviol>>
-        /\ UNCHANGED <<devs, ndev, cnt>>
+        /\ UNCHANGED <<devs, ndev, cnt, jv>>
      ELSE IF e.op = "hang" \/ "obs" \notin DOMAIN e \/ "panic" \in DOMAIN e.obs THEN
-        /\ Bad /\ UNCHANGED <<w, cfg, seq, pfs, devs, ndev, cnt>>
+        /\ Bad /\ UNCHANGED <<w, cfg, seq, pfs, devs, ndev, cnt, jv>>
      ELSE
-        LET j == Judge(e)
-            good == j.ok /\ e.seq = seq + 1 /\ e.rc # "panic"
-        IN /\ w' = j.st /\ cfg' = cfg /\ seq' = e.seq /\ pfs' = FsOf(cfg, e.obs)
-           /\ IF good THEN UNCHANGED <<viol, nviol>> ELSE Bad
-           /\ ndev' = [f \in DevIds |-> IF good /\ f \in j.dev THEN ndev[f] + 1 ELSE ndev[f]]
-           /\ devs' = IF good /\ j.dev # {} /\ Len(devs) < MaxDevs THEN Append(devs, <<l, CHOOSE f \in j.dev : TRUE>>) ELSE devs
-           /\ cnt' = [x \in CntIds |-> IF good /\ x \in j.tags THEN cnt[x] + 1 ELSE cnt[x]]
+        /\ jv' = Judge(e)
+        /\ LET good == jv'.ok /\ e.seq = seq + 1 /\ e.rc # "panic"
+               dv   == IF good THEN jv'.dev ELSE {}
+               tg   == IF good THEN jv'.tags ELSE {}
+           IN /\ w' = jv'.st /\ cfg' = cfg /\ seq' = e.seq /\ pfs' = FsOf(cfg, e.obs)
+              /\ IF good THEN UNCHANGED <<viol, nviol>> ELSE Bad
+              /\ ndev' = IF dv = {} THEN ndev ELSE [f \in DevIds |-> IF f \in dv THEN ndev[f] + 1 ELSE ndev[f]]
+              /\ devs' = IF dv # {} /\ Len(devs) < MaxDevs THEN Append(devs, <<l, CHOOSE f \in dv : TRUE>>) ELSE devs
+              /\ cnt' = IF tg = {} THEN cnt ELSE [x \in CntIds |-> IF x \in tg THEN cnt[x] + 1 ELSE cnt[x]]
   /\ l' = l + 1
 
 TNext == Step
 Done == (l = Len(Rec) + 1) =>
   PrintT(<<"VERDICT", ToJson([events |-> Len(Rec), violations |-> viol, nviol |-> nviol, deviations |-> devs,
                               dev_FX03a |-> ndev["FX03a"], dev_FX03b |-> ndev["FX03b"], dev_FX03c |-> ndev["FX03c"],
-                              dev_FX03d |-> ndev["FX03d"], dev_FX03e |-> ndev["FX03e"], dev_FX03g |-> ndev["FX03g"],
+                              dev_FX03d |-> ndev["FX03d"], dev_FX03e |-> ndev["FX03e"], dev_FX03f |-> ndev["FX03f"], dev_FX03g |-> ndev["FX03g"],
                               n_touch |-> cnt["touch"], n_cutread |-> cnt["cutread"], n_exact |-> cnt["exact"],
                               n_denied |-> cnt["denied"], n_hquery |-> cnt["hquery"], n_stale |-> cnt["stale"],
                               n_sexact |-> cnt["sexact"], n_rtrait |-> cnt["rtrait"]])>>)
